@@ -46,7 +46,7 @@ func run(r *vk.Run) {
 		"what an updates-only Pull delivers first is observed, not judged; whether an invalid or empty update_mask is accepted is observed, not judged",
 		"an Update request always carries a value message (a request without one is a malformed request, not a random update)",
 		"clause update-mask-ignored (update_mask [A], request also changes B, stored B follows the request twice although the second write repeats A) goes beyond the literal statement: it checks the anchored mechanism 'servers translate update_mask into resource options'; messages with a single field (OnOff, ModeValues) cannot be probed",
-		"lightpb.MemoryDevice only with zero tween duration; hailpb.Model with the wall-clock driven garbage collection switched off",
+		"lightpb.MemoryDevice in the generated histories only with zero tween duration (its ramp writer runs on a wall-clock ticker; it is driven separately by the ramp-then-plain cases, whose verdict waits for the ramp goroutine to exit); hailpb.Model with the wall-clock driven garbage collection switched off",
 		"a triple all of whose RPCs answer Unimplemented does not expose a resource and is outside the domain (presspb.ModelServer, see notes)")
 
 	targets := discover(r)
@@ -83,6 +83,9 @@ func run(r *vk.Run) {
 			r.Require("checked/"+w.name+"/"+t.e.id+"/"+t.tr.x, reps/2)
 		}
 	}
+
+	// the ramp writer of lightpb.MemoryDevice against a plain Update
+	rampThenPlain(r)
 
 	// stalled reader: every triple x repetitions
 	sreps := r.Pick(1, 12)
